@@ -463,7 +463,7 @@ func ruleR023(c *Ctx) {
 		}
 		sig := obj.Type().(*types.Signature)
 		if n := sig.Results().Len(); n > 3 && isErrorType(sig.Results().At(n-1).Type()) {
-			if b, ok := sig.Results().At(n-2).Type().Underlying().(*types.Basic); ok && b.Kind() == types.Bool {
+			if b, ok := sig.Results().At(n - 2).Type().Underlying().(*types.Basic); ok && b.Kind() == types.Bool {
 				genHelpers[obj.Origin()] = true
 			}
 		}
@@ -799,6 +799,30 @@ func ruleR023(c *Ctx) {
 									}
 									if isNamed(info.TypeOf(recv), modPath+"/funcGen", "MethodHandler") {
 										asksHandler = true
+									} else if hc := Callee(info, qc); hc != nil && hc.Pkg() == gi.pkg.Types && findFuncDecl(gi.pkg, hc) != nil {
+										// a private helper that asks the handler: func (g *FunctionGenerator) isMethodPure(name) bool
+										hd := findFuncDecl(gi.pkg, hc)
+										helperAsks, helperTrue := false, false
+										ast.Inspect(hd.Body, func(z ast.Node) bool {
+											switch t := z.(type) {
+											case *ast.TypeAssertExpr:
+												if isNamed(info.TypeOf(t.X), modPath+"/funcGen", "MethodHandler") {
+													helperAsks = true
+												}
+											case *ast.ReturnStmt:
+												for _, res := range t.Results {
+													if tv := info.Types[res]; tv.Value != nil && tv.Value.Kind() == constant.Bool && constant.BoolVal(tv.Value) {
+														helperTrue = true
+													}
+												}
+											}
+											return true
+										})
+										if helperAsks && !helperTrue {
+											asksHandler = true
+										} else {
+											otherTrue = true
+										}
 									} else {
 										otherTrue = true
 									}
